@@ -437,6 +437,36 @@ def judge(case, im, mo_ops, mo_sem):
         yield ("corr", f"the directly built design is rejected, the history-built one is accepted: {im.get('direct_reject')}")
 
 
+def corpus():
+    """Hand-written histories: a connectable derived from a port reference (a slice of it, a concatenation around it, a chain
+    through it) is made while the referenced port is on one signal, and the port is re-connected afterwards."""
+    E1 = copy.deepcopy(gen_design.LEAVES[0])  # ports a (2 bits), b (1 bit)
+    sg = lambda n, w: {"n": n, "w": w, "port": False, "dir": "none"}
+    S = lambda n: {"k": "sig", "n": n}
+    P = lambda i, p: {"k": "pref", "inst": i, "port": p}
+    con = lambda i, p, c, form="connect": {"k": "connect", "form": form, "inst": i, "port": p, "c": c}
+    out = []
+    for derived in ({"k": "slice", "p": P("i1", "a"), "i": {"i": 1}}, {"k": "slice", "p": P("i1", "a"), "i": {"s": 0, "e": 1, "st": None}},
+                    {"k": "concat", "ps": [{"k": "slice", "p": P("i1", "a"), "i": {"i": 0}}]}):
+        for form in ("connect", "setattr", "call"):
+            insts = [{"n": "i1", "of": E1, "conns": [["a", S("bb")], ["b", S("s1")]]},
+                     {"n": "i2", "of": E1, "conns": [["a", S("aa")], ["b", derived]]}]
+            d = {"bundles": [], "top": "Top", "modules": [{"name": "Top", "sigs": [sg("aa", 2), sg("bb", 2), sg("s1", 1)], "bundles": [], "insts": insts}]}
+            ops = [con("i1", "a", S("aa"), form), con("i1", "b", S("s1")), con("i2", "b", copy.deepcopy(derived), form), con("i2", "a", S("aa")),
+                   con("i1", "a", S("bb"), form)]
+            for cut in (0, 3, len(ops)):
+                out.append({"design": d, "style": "proc", "history": {"Top": {"pre": ops[:cut], "post": ops[cut:]}}})
+    # a chain i3.b -> i2.b -> i1.b, its middle re-connected after the outer reference was taken
+    insts = [{"n": "i1", "of": E1, "conns": [["a", S("aa")], ["b", S("x")]]}, {"n": "i2", "of": E1, "conns": [["a", S("aa")], ["b", S("y")]]},
+             {"n": "i3", "of": E1, "conns": [["a", S("aa")], ["b", P("i2", "b")]]}]
+    d = {"bundles": [], "top": "Top", "modules": [{"name": "Top", "sigs": [sg("aa", 2), sg("x", 1), sg("y", 1)], "bundles": [], "insts": insts}]}
+    ops = [con("i1", "a", S("aa")), con("i2", "a", S("aa")), con("i3", "a", S("aa")), con("i2", "b", P("i1", "b"), "setattr"), con("i3", "b", P("i2", "b"), "setattr"),
+           con("i1", "b", S("x"), "setattr"), con("i2", "b", S("y"), "setattr")]
+    for cut in (0, 5, len(ops)):
+        out.append({"design": d, "style": "proc", "history": {"Top": {"pre": ops[:cut], "post": ops[cut:]}}})
+    return out
+
+
 def make_cases(rng, n, intensity=1.0):
     base = designs.gen_cases(rng, n, styles=("proc", "class", "gen"))
     for c in base:
@@ -476,7 +506,7 @@ def run(ctx):
         "dead connection; distinct = distinct (design, history) JSON"
     )
     n = 160 if ctx.quick else 4000
-    cases = make_cases(ctx.rng, n)
+    cases = corpus() + make_cases(ctx.rng, n)
     stats = {"ops": 0, "model_ops": 0, "dead_kinds": {}, "forms": {}, "exported": 0, "bad_ops": 0, "mult": 0, "ill_formed": 0}
     for c, im, mo_ops, mo_sem in run_cases(ctx, cases):
         dead = 0
